@@ -22,6 +22,9 @@ type c04Case struct {
 }
 
 func c04Replay(c *mc.Ctx, prop, sub string, k c04Case) {
+	if k.Cfg.BigAlloc {
+		setAllocCap(1 << 30)
+	}
 	s := newReaderSys(k.Cfg)
 	if k.Choices != nil || k.DevMax > 0 {
 		s.ch, s.devMax = mc.NewReplayChooser(k.Choices), k.DevMax
@@ -199,6 +202,29 @@ func c04Run(c *mc.Ctx) {
 			continue
 		}
 		readerBFS(c, "C04", ReaderCfg{Kind: "default", DLen: 300, Env: EnvCfg{Chunk: 1}, Sizes: []int{1, 100, 4097}, Warm: warm, NoNeg: true}, 3, 0)
+	}
+	// 1b'. a long-lived reader whose earlier messages were small (the statistics say "4 KiB is typical"), then a message
+	//      that makes the buffer grow, released with tails of every size class still unread
+	for _, warm := range []int{3, 10} {
+		for _, dl := range []int{20000, 40000} {
+			if !c.Mine() {
+				continue
+			}
+			readerBFS(c, "C04", ReaderCfg{Kind: "default", DLen: dl, Env: EnvCfg{}, Sizes: []int{1, 4097, 8193}, Warm: warm, NoNeg: true}, 4, 0)
+			readerBFS(c, "C04", ReaderCfg{Kind: "default", DLen: dl, Env: EnvCfg{Chunk: 16384, ErrWithLast: true}, Sizes: []int{1, 4097, 8193}, Warm: warm, NoNeg: true}, 4, 0)
+			// the warm-up messages arrive one byte at a time (each is drained at its Release), the rest arrives at once
+			readerBFS(c, "C04", ReaderCfg{Kind: "default", DLen: dl, Env: EnvCfg{SmallFirst: warm}, Sizes: []int{1, 8193, 16385}, Warm: warm, NoNeg: true}, 4, 0)
+		}
+	}
+	// 1b''. requests beyond 64 MiB on a stream that ends early, the error arriving together with data
+	if c.Mine() {
+		setAllocCap(1 << 30)
+		for _, env := range []EnvCfg{{Chunk: 1 << 20, ErrWithLast: true, Err: 1}, {Chunk: 1<<20 + 3, Err: 2}} {
+			for _, dl := range []int{64 << 20, 66<<20 + 77} { // exactly one growth step, and a little more
+				readerBFS(c, "C04", ReaderCfg{Kind: "default", DLen: dl, Env: env, Sizes: []int{5, 65<<20 + 1, 68 << 20}, NoNeg: true, BigAlloc: true}, 2, 0)
+			}
+		}
+		setAllocCap(64 << 20)
 	}
 	// 1c. requests beyond 1 MiB / 2 MiB (above every pooling and retention threshold) on a 3 MiB stream
 	for _, env := range []EnvCfg{{}, {Chunk: 65536, ErrWithLast: true, Err: 1}, {Chunk: 1<<20 + 7, ZeroReads: 1, Err: 2, AfterErr: 1}} {
